@@ -12,6 +12,8 @@ The generators do two things:
    binding and shadowing (`Tm`): `f` is bound first, then each parameter list in order, and the body
    looks its names up in that environment (innermost binder first), exactly like Go's scoping.
 
+(The dynamic semantics does not depend on the number of results: `run*` fix it to 1.)
+
 `wf` is the static judgement (does the emitted text compile?), `eval` the dynamic one (what does the
 wrapper do when applied?). The function under test is a *logging* function, so "exactly once, with
 these arguments" is visible in the result.
@@ -20,7 +22,9 @@ One boolean of `Cfg` per known defect class of the current generator (DESIGN §9
 the real tool once per run and selects the setting:
 * `unnamedFixed`: unnamed parameters (`func(int, string)`) no longer print `f(, )`;
 * `shadowFixed`: a parameter called like the generator's own binder (`f`) no longer captures it;
-* `crossFixed`: uncurry no longer merges clashing outer/inner parameter names into one list.
+* `crossFixed`: uncurry no longer merges clashing outer/inner parameter names into one list;
+* `voidFixed`: a wrapped function without results is no longer forwarded as `return f(…)`
+  (found by this check; curry, uncurry, flip and apply are affected).
 A repaired generator is modelled as one that switches to positional names (`param_<i>`) in the
 offending case: any sound repair is observationally equal to that.
 -/
@@ -39,12 +43,13 @@ structure Cfg where
   unnamedFixed : Bool := false
   shadowFixed : Bool := false
   crossFixed : Bool := false
+  voidFixed : Bool := false
   deriving DecidableEq, Repr, Inhabited
 
 /-- the generator as it is at the pinned commit -/
 def Cfg.current : Cfg := {}
-/-- all three defect classes repaired -/
-def Cfg.fixed : Cfg := { unnamedFixed := true, shadowFixed := true, crossFixed := true }
+/-- all defect classes repaired -/
+def Cfg.fixed : Cfg := { unnamedFixed := true, shadowFixed := true, crossFixed := true, voidFixed := true }
 
 def blank : Name := ['_']
 def fName : Name := ['f']
@@ -114,7 +119,7 @@ def uncurrySig (outer inner : List Param) : List Param := outer ++ inner
 
 inductive BTy where
   | val (t : Nat)                       -- an ordinary parameter of the type with that id
-  | fn (groups : List (List Nat))       -- a (possibly curried) function: parameter types per call
+  | fn (groups : List (List Nat)) (nres : Nat)   -- a (possibly curried) function: parameter types per call, number of results
   deriving DecidableEq, Repr, Inhabited
 
 structure Binder where
@@ -126,32 +131,39 @@ def Param.toBinder (p : Param) : Binder := { name := p.name, ty := .val p.ty }
 
 inductive Tm where
   | lam (bs : List Binder) (body : Tm)              -- `func(bs) … { return body }`
-  | call (head : Name) (groups : List (List Name))  -- `head(names…)(names…)`
+  | call (head : Name) (groups : List (List Name)) (ret : Bool)  -- `[return ]head(names…)(names…)`
   | ret (ns : List Name)                            -- `v0, v1, …`
   deriving Repr, Inhabited
 
 def binders (ps : List Param) : List Binder := ps.map Param.toBinder
 
-def fBinder (groups : List (List Param)) : Binder := { name := fName, ty := .fn (groups.map tys) }
+def fBinder (groups : List (List Param)) (nres : Nat) : Binder :=
+  { name := fName, ty := .fn (groups.map tys) nres }
+
+/-- every generator prints `return f(…)`, whether or not `f` has results; a repaired one drops the
+`return` for a function without results -/
+def retFlag (cfg : Cfg) (nres : Nat) : Bool := !(cfg.voidFixed && nres == 0)
 
 /-- plugin/curry `genFuncFor`:
 `func deriveCurry(f F) func(first) func(rest) R { return func(first) … { return func(rest) R { return f(all) } } }` -/
-def curryTm (cfg : Cfg) (ps0 : List Param) : Tm :=
+def curryTm (cfg : Cfg) (ps0 : List Param) (nres : Nat) : Tm :=
   let ps := effParams cfg [fName] paramPrefix ps0
   let (first, rest) := currySig ps
-  .lam [fBinder [ps]] (.lam (binders first) (.lam (binders rest) (.call fName [names ps])))
+  .lam [fBinder [ps] nres]
+    (.lam (binders first) (.lam (binders rest) (.call fName [names ps] (retFlag cfg nres))))
 
 /-- plugin/flip: `func deriveFlip(f F) func(flipped) R { return func(flipped) R { return f(all) } }` -/
-def flipTm (cfg : Cfg) (ps0 : List Param) : Tm :=
+def flipTm (cfg : Cfg) (ps0 : List Param) (nres : Nat) : Tm :=
   let ps := effParams cfg [fName] paramPrefix ps0
-  .lam [fBinder [ps]] (.lam (binders (flipSig ps)) (.call fName [names ps]))
+  .lam [fBinder [ps] nres] (.lam (binders (flipSig ps)) (.call fName [names ps] (retFlag cfg nres)))
 
 /-- plugin/apply: `func deriveApply(f F, last T) func(others) R { return func(others) R { return f(all) } }`;
 `f` and the pre-bound parameter share one parameter list -/
-def applyTm (cfg : Cfg) (ps0 : List Param) : Tm :=
+def applyTm (cfg : Cfg) (ps0 : List Param) (nres : Nat) : Tm :=
   let ps := effParams cfg [fName] paramPrefix ps0
   let (last, others) := applySig ps
-  .lam (fBinder [ps] :: binders last) (.lam (binders others) (.call fName [names ps]))
+  .lam (fBinder [ps] nres :: binders last)
+    (.lam (binders others) (.call fName [names ps] (retFlag cfg nres)))
 
 /-- the two parameter lists of plugin/uncurry after `Add` (`param_` outside, `innerParam_` inside) -/
 def uncurryParams (cfg : Cfg) (outer0 inner0 : List Param) : List Param × List Param :=
@@ -163,10 +175,10 @@ def uncurryParams (cfg : Cfg) (outer0 inner0 : List Param) : List Param × List 
   else (outer, inner)
 
 /-- plugin/uncurry: `func deriveUncurry(f F) func(outer…, inner…) R { return func(outer…, inner…) R { return f(outer)(inner) } }` -/
-def uncurryTm (cfg : Cfg) (outer0 inner0 : List Param) : Tm :=
+def uncurryTm (cfg : Cfg) (outer0 inner0 : List Param) (nres : Nat) : Tm :=
   let (outer, inner) := uncurryParams cfg outer0 inner0
-  .lam [fBinder [outer, inner]]
-    (.lam (binders (uncurrySig outer inner)) (.call fName [names outer, names inner]))
+  .lam [fBinder [outer, inner] nres]
+    (.lam (binders (uncurrySig outer inner)) (.call fName [names outer, names inner] (retFlag cfg nres)))
 
 /-- plugin/tuple: `func deriveTuple(v0 T0, …) func() (T0, …) { return func() (T0, …) { return v0, … } }` -/
 def tupleParams (ts : List Nat) : List Param := positionalFrom vPrefix 0 (ts.map fun t => { name := [], ty := t })
@@ -210,9 +222,9 @@ def retOk (env : List Binder) : List Name → Bool
 /-- `wf env t`: the emitted text type-checks in scope `env` (innermost first) -/
 def wf (env : List Binder) : Tm → Bool
   | .lam bs body => groupOk bs && wf (bs.reverse ++ env) body
-  | .call h gs =>
+  | .call h gs ret =>
     match lookupB env h with
-    | some (.fn ts) => groupsOk env gs ts
+    | some (.fn ts n) => groupsOk env gs ts && (ret == decide (0 < n))   -- `return f()` needs a value
     | _ => false
   | .ret ns => retOk env ns
 
@@ -261,7 +273,7 @@ def bindG {α} (bs : List Binder) (vs : List (RV α)) : List (Name × RV α) :=
 def eval {α} : List (Name × RV α) → Tm → List (List (RV α)) → Out α
   | env, .lam bs body, vs :: rest =>
     if bs.length = vs.length then eval (bindG bs vs ++ env) body rest else none
-  | env, .call h gs, [] =>
+  | env, .call h gs _, [] =>
     match lookupV env h, lookupGroups env gs with
     | some (.fn g), some args => g args
     | _, _ => none
@@ -284,19 +296,19 @@ def vals {α} (as : List α) : List (RV α) := as.map .val
 
 /-- `deriveCurry(f)(a)(rest…)` -/
 def runCurry {α} (cfg : Cfg) (ps : List Param) (f : List α → List α) (a : α) (rest : List α) : Out α :=
-  eval [] (curryTm cfg ps) [[.fn (logging f)], [.val a], vals rest]
+  eval [] (curryTm cfg ps 1) [[.fn (logging f)], [.val a], vals rest]
 
 /-- `deriveFlip(f)(args…)` -/
 def runFlip {α} (cfg : Cfg) (ps : List Param) (f : List α → List α) (args : List α) : Out α :=
-  eval [] (flipTm cfg ps) [[.fn (logging f)], vals args]
+  eval [] (flipTm cfg ps 1) [[.fn (logging f)], vals args]
 
 /-- `deriveApply(f, last)(others…)` -/
 def runApply {α} (cfg : Cfg) (ps : List Param) (f : List α → List α) (last : α) (others : List α) : Out α :=
-  eval [] (applyTm cfg ps) [[.fn (logging f), .val last], vals others]
+  eval [] (applyTm cfg ps 1) [[.fn (logging f), .val last], vals others]
 
 /-- `deriveUncurry(fc)(args…)` for an instrumented curried `fc` -/
 def runUncurry {α} (cfg : Cfg) (outer inner : List Param) (f : List α → List α) (args : List α) : Out α :=
-  eval [] (uncurryTm cfg outer inner) [[.fn (loggingCurried f)], vals args]
+  eval [] (uncurryTm cfg outer inner 1) [[.fn (loggingCurried f)], vals args]
 
 /-- the value `deriveCurry(f)` as a curried function -/
 def curried {α} (cfg : Cfg) (ps : List Param) (f : List α → List α) : List (List α) → Out α
@@ -307,7 +319,7 @@ def curried {α} (cfg : Cfg) (ps : List Param) (f : List α → List α) : List 
 curry wrapper -/
 def runUncurryCurry {α} (cfg : Cfg) (ps : List Param) (f : List α → List α) (args : List α) : Out α :=
   let (first, rest) := currySig (effParams cfg [fName] paramPrefix ps)
-  eval [] (uncurryTm cfg first rest) [[.fn (curried cfg ps f)], vals args]
+  eval [] (uncurryTm cfg first rest 1) [[.fn (curried cfg ps f)], vals args]
 
 /-- `deriveTuple(args…)()` -/
 def runTuple {α} (ts : List Nat) (args : List α) : Out α :=
